@@ -8,10 +8,10 @@ RULE = ('generated spied charts with side actions (posts, defer, recall, scribbl
         'ground-truth invocation log recorded inside the undecorated handlers (SIG:state per invocation, SIG:state:HOOK right after a '
         'user-signal invocation that returned HANDLED, POST_FIFO/POST_LIFO/POST_DEFERRED/RECALL/scribble lines where they happened, '
         'START, queue reflection last) and spy() must equal the concatenation of the step logs cut to the 500-line ring (long runs cross '
-        'it); in half of the runs the client calls clear_spy() / clear_trace() once or twice early on, after which the full spy must be the concatenation of the step logs SINCE the clear, again cut to the ring. distinct_nontrivial = distinct (host, lines in the run, number of marker lines, ring crossed) tuples')
+        'it); in half of the runs the client calls clear_spy() / clear_trace() once or twice early on, after which the full spy must be the concatenation of the step logs SINCE the clear, again cut to the ring. In a third of the runs live spy / live trace output is switched on (the step log and the full spy must not depend on it). distinct_nontrivial = distinct (host, lines in the run, number of marker lines, ring crossed) tuples')
 CASES = {'quick': 2500, 'thorough': 150000}
 BUDGET = {'quick': 150, 'thorough': 300}
-REQUIRE = {'spy_step_logs': 20000, 'full_spy_ring_crossed': 20, 'instr_host_runs': 200, 'clear_spy_calls': 200}
+REQUIRE = {'spy_step_logs': 20000, 'full_spy_ring_crossed': 20, 'instr_host_runs': 200, 'clear_spy_calls': 200, 'runs_with_live_output_on': 400}
 ASSUME = ['steps produce fewer than 250 spy lines (beyond the per-step ring the statement is silent; such steps are counted and skipped)',
           'posts from other threads while a step runs are not part of this property (C04)']
 
@@ -20,7 +20,9 @@ def run_case(ctx, n):
   rng = ctx.rng('kind', n)
   if rng.random() < 0.2:
     return instr_host_case(ctx, n)
-  r = qcheck.run_qcase(ctx, n, ('C19',), with_queries=n % 2 == 0, long_run=rng.random() < 0.3, clears=True)
+  r = qcheck.run_qcase(ctx, n, ('C19',), with_queries=n % 2 == 0, long_run=rng.random() < 0.3, clears=True, live=n % 3 == 0, restarts=True)
+  if n % 3 == 0:
+    ctx.count('runs_with_live_output_on')
   if r is None:
     return
   res, spec, cfg = r
